@@ -26,6 +26,7 @@ let parse (w : string list) : op option =
   | "reset" -> Some (OReset (n 1))
   | "destroy" -> Some (ODestroy (n 1))
   | "drop" -> Some (ODrop (n 1))
+  | "abandon" -> Some (ODrop (n 1))   (* forgetting a released static struct: for the machine a reset that frees nothing + forget *)
   | "trunc" -> Some (OTruncate (n 1))
   | "rewind" -> Some (ORewind (n 1, z 2))
   | "resize" -> Some (OResize (n 1, z 2, b 3))
